@@ -131,12 +131,6 @@ def check_quit(run, case, name, sn, U, Upg, I, steps, label):
         run.nontrivial(s.digest())
     else:
         if A.guesses != Ug:
-            last_key, last_prob, last_gs = Upg[-1]
-            if last_key[0] == ('M',) and len(A.guesses) >= len(Ug) - len(last_gs):
-                # the quit landed inside the Markov level of the FINAL pre-terminal: the queue is empty afterwards and the "Done" path does not save
-                run.violation(f'{label} {desc}: quit inside the final (Markov) pre-terminal: the run ends without saving the session', case,
-                              observed={'emitted': len(A.guesses), 'total': len(Ug)}, mech='final-markov-preterminal')
-                return True
             run.violation(f'{label} {desc}: run reported completion but the stream is incomplete', case); return False
     return True
 
@@ -211,9 +205,6 @@ def check_case(run, case, tier='quick'):
         I = s0.m_idx
         run.ev('reference_yield_points', I)
         limit_p = I
-        if final_markov:
-            # yield points are monotone in the stream: cap p so that q lands before the final pre-terminal starts
-            limit_p = int(I * (sum(len(p[2]) for p in Upg[:-1]) / max(1, len(U.guesses))) * 0.9)
         pts_all = list(range(1, I + 1))
         npts = POINTS[tier] if tier == 'thorough' else max(25, min(POINTS[tier], 500000 // max(I, 1)))
         pts = pts_all if len(pts_all) <= npts else sorted(rng.sample(pts_all, npts))
